@@ -58,6 +58,24 @@ theorem getscript_independent (a b : Client) (h : SameC a b) (n : Bytes) :
 theorem renamescript_independent (a b : Client) (h : SameC a b) (o n : Bytes) :
     RelC (renamescript a o n) (renamescript b o n) := renamescript_congr a b h o n
 
+theorem capability_independent (a b : Client) (h : SameC a b) : RelC (capability a) (capability b) := capability_congr a b h
+theorem logout_independent (a b : Client) (h : SameC a b) : RelC (logout a) (logout b) := logout_congr a b h
+/-- a capability block (the greeting, or the block sent after a TLS handshake) -/
+theorem capabilities_independent (a b : Client) (h : SameC a b) : RelC (getCapabilities a) (getCapabilities b) :=
+  getCapabilities_congr a b h
+/-- the whole SASL exchange, whichever mechanism is chosen (LOGIN's several steps included) -/
+theorem authenticate_independent (a b : Client) (h : SameC a b) (login password authz : Bytes) (mech : Option Bytes) :
+    RelC (authenticate a login password authz mech) (authenticate b login password authz mech) :=
+  authenticate_congr a b h login password authz mech
+/-- **`connect` without STARTTLS**: greeting, mechanism choice, AUTHENTICATE exchange and final state are the
+    same for any two deliveries of the same server bytes.  With STARTTLS the statement is deliberately
+    false — what reached the buffer before the handshake is discarded, what is still in the socket is
+    not (the plaintext-injection guard, C10) — so it is not claimed there -/
+theorem connect_without_tls_independent (c : Client) (env : ConnEnv) (n1 n2 : Net) (hs : n1.stream = n2.stream)
+    (hl : n1.later = n2.later) (login password authz : Bytes) (mech : Option Bytes) :
+    RelC (connect c env n1 login password authz false mech) (connect c env n2 login password authz false mech) :=
+  connect_plain_congr c env n1 n2 hs hl login password authz mech
+
 /-- non-vacuity: a literal delivered one byte at a time is read whole and the status line after it
     is still there for the reader -/
 example : (readBlock 3 ⟨[], ⟨sb "abcOK", [1, 1, 1, 1], []⟩, [], []⟩).toOption.map (·.1) = some (sb "abc") := by
